@@ -13,7 +13,7 @@ StepClauses(e) ==
   CASE e.op = "setattr"  -> SetAttrClauses(e.ctype, e.name, e.tok, e.res, e.pre, e.post)
     [] e.op = "unset"    -> UnsetClauses(e.ctype, e.name, e.res, e.pre, e.post)
     [] e.op = "setval"   -> SetValClauses(e.stype, e.ht, e.tok, e.res, e.pre, e.post)
-    [] e.op = "tostring" -> ToStringValClauses(e.ctype, e.stype, e.ht, e.complete, e.res, e.pre, e.post, e.em)
+    [] e.op = "tostring" -> ToStringValClauses(e.ctype, e.stype, e.ht, e.complete, e.res, e.pre, e.post, e.em, e.expect)
     [] e.op = "get"      -> GetClauses(e.ctype, e.name, e.present, e.got, e.res)
     [] e.op = "new"      -> [ante |-> [C19_quiet |-> TRUE], holds |-> [C19_quiet |-> Quiet(e.res)]]
 
@@ -27,7 +27,7 @@ TwinClauses(e) ==
                    /\ (e.res.ok => (e.post.attrs = f.post.attrs /\ e.post.val = f.post.val)) ]]
 
 AllClauses == {"C04_decl", "C04_value", "C04_store", "C04_unset", "C04_required", "C04_names", "C05_complete", "C05_value",
-               "C05_sound", "C05_notext", "C10_frame", "C15_read", "C15_same", "C16_pure", "C19_class", "C19_quiet"}
+               "C05_sound", "C05_notext", "C10_frame", "C15_read", "C15_same", "C16_pure", "C16_wf", "C19_class", "C19_quiet"}
 
 VARIABLES i, cnt
 Init == i = 1 /\ cnt = [n \in AllClauses |-> 0]
